@@ -1,14 +1,17 @@
 #!/usr/bin/env python3
 """mutant_prompt.py <worktree> <outdir> <Cxx> [<Cxx> ...]  -> prints a prompt for a fresh mutation agent
 (only the property texts + a scratch worktree; nothing from /verif)"""
-import json, sys
+import json, os, sys
 wt, out, ids = sys.argv[1], sys.argv[2], sys.argv[3:]
 props = {json.loads(l)["id"]: json.loads(l) for l in open("/verif/properties.jsonl")}
+N=int(os.environ.get("N","2"))
+NWORD={1:"ONE",2:"TWO different,",3:"THREE different,"}[N]; PL="" if N==1 else "s"; NS=",".join(str(i) for i in range(int(os.environ.get("START","1")), int(os.environ.get("START","1"))+N))
+DIFF="Make the changes for a property different in kind and location." if N>1 else "Prefer a change in a part of the relevant code that looks least exercised by ordinary use (error paths, rarely used options, state re-use across calls, concurrency, boundary sizes)."
 print(f"""You are testing how robust a Rust codebase's guarantees are. You have your own scratch git worktree of the gitoxide repository at {wt} (a pure-Rust implementation of git, a cargo workspace of ~60 crates; builds offline with `cargo build/test --offline`; there is no network). Work ONLY inside {wt} and {out} (and /tmp for scratch files). Do not read or touch /repo, and you must not read anything under /verif.
 
-Below are {len(ids)} semantic properties the code base is supposed to satisfy. For EACH property produce TWO different, realistic code changes (each a separate small patch against the worktree's HEAD) that BREAK that property while the code still compiles and the existing test suites of the touched crates still pass (run them: `cargo test -p <crate>@<version> --offline` — several crate names are ambiguous without `@version`; integration tests of crate X often live in a separate package `X-tests`, run that too). The changes should look like plausible refactoring slips or "optimisations", and should need something SPECIFIC to manifest — a particular interleaving, a crash or fault at a particular point, a multi-step sequence of operations, an unusual input, or two cooperating sites that each look fine alone — not something ordinary use would expose at once. Make the two changes for a property different in kind and location.
+Below are {len(ids)} semantic properties the code base is supposed to satisfy. For EACH property produce {NWORD} realistic code change{PL} (each a separate small patch against the worktree's HEAD) that BREAK that property while the code still compiles and the existing test suites of the touched crates still pass (run them: `cargo test -p <crate>@<version> --offline` — several crate names are ambiguous without `@version`; integration tests of crate X often live in a separate package `X-tests`, run that too). The changes should look like plausible refactoring slips or "optimisations", and should need something SPECIFIC to manifest — a particular interleaving, a crash or fault at a particular point, a multi-step sequence of operations, an unusual input, or two cooperating sites that each look fine alone — not something ordinary use would expose at once. {DIFF}
 
-For each change deliver, under {out}/<property-id>-<n>/ (n = 1,2):
+For each change deliver, under {out}/<property-id>-<n>/ (n = {NS}):
   - patch.diff: `git diff` of the change against HEAD (apply-able with `git apply` at the repo root);
   - a demonstration: a tiny cargo crate (Cargo.toml + lib.rs/demo.rs with `#[test]`s, path dependencies into {wt}, its own copy of {wt}/Cargo.lock) whose tests FAIL with the change applied and PASS without it; it must be runnable as `CARGO_TARGET_DIR={wt}/target/mutant-demos cargo test --offline --manifest-path {out}/<id>-<n>/Cargo.toml`;
   - notes.md: what the change breaks, what it needs in order to manifest, the packages whose existing tests you ran with the change applied (exact `-p` specs) and their result lines.
